@@ -349,7 +349,7 @@ func runC12(c *Ctx) {
 		for _, g := range f.Lits {
 			gcf := g.CFG()
 			ginfo := g.Info()
-			rm, _ := gcf.CallLocs(fnRemovePeer)
+			rm := gcf.CallLocsThrough(fnRemovePeer)
 			for _, step := range []string{"(github.com/libp2p/go-libp2p/core/host.Host).Connect", "field:dht/rtrefresh.RtRefreshManager.refreshPingFnc"} {
 				for _, e := range errEdges(gcf, false, step) {
 					n++
@@ -364,8 +364,9 @@ func runC12(c *Ctx) {
 					pr = rootObj(ginfo, ping.Args[1])
 				}
 			}
-			for _, call := range g.Calls(fnRemovePeer) {
-				c.Check(K(g.Name, "evicts the probed peer"), call.Pos(), pr != nil && rootObj(ginfo, call.Args[0]) == pr, "the evicted peer is the one that was probed", "RemovePeer on another peer")
+			for _, site := range g.CallsDeep(fnRemovePeer) {
+				call := site.Call()
+				c.Check(K(g.Name, "evicts the probed peer"), call.Pos(), pr != nil && rootObj(site.F.Info(), call.Args[0]) == pr, "the evicted peer is the one that was probed", "RemovePeer on another peer")
 			}
 		}
 		c.Check(K(f.Name, "error edges"), f.Pos(), n == 2, "connect and ping failures are both handled", "found "+itoa(n)+" error tests")
